@@ -12,6 +12,7 @@ use serde_json::{json, Map};
 pub fn gens() -> Vec<Gen> {
     vec![
         Gen { name: "c13.planted", prop: "C13", tags: &["reserved", "check_for_sd_claim", "inv_arr", "clean", "src/lib.rs", "src/issuer.rs"], cases: cases_planted, check },
+        Gen { name: "c13.lookalike", prop: "C13", tags: &["lookalike", "prefix", "starts_with", "name", "clean_is_ok", "ok_only_if_clean"], cases: cases_lookalike, check: check_exact },
         Gen { name: "c13.deep_planted", prop: "C13", tags: &["depth", "deep", "recursion", "bound"], cases: cases_deep, check },
         Gen { name: "c13.planted_enum", prop: "C13", tags: &["enum"], cases: cases_enum, check },
     ]
@@ -200,5 +201,75 @@ fn cases_deep(_rng: &mut Rng, sink: &mut dyn FnMut(J) -> bool) {
                 }
             }
         }
+    }
+}
+
+/// Names that merely resemble the reserved ones.
+fn lookalike_names() -> Vec<&'static str> {
+    vec![
+        "..", ".", "....", ".....", "...x", "...more", "... ", " ...", "x...", "..._", "_...", ". ..", ".. .", "\u{2026}", "...\u{0}", "...\n", "....sd", "......",
+        "_sd_", "_sdx", "x_sd", "_SD", "_Sd", "_sD", " _sd", "_sd ", "_s", "sd", "__sd", "_sd_alg", "_sd.", "_sd\u{0}", "\u{ff3f}sd", "_sd[0]", "_sd...", "..._sd", "",
+    ]
+}
+
+/// Look-alike names planted at every object position (must be issued); plus, together with an
+/// exactly reserved name elsewhere (must be refused).
+fn cases_lookalike(_rng: &mut Rng, sink: &mut dyn FnMut(J) -> bool) {
+    let trees = [
+        json!({"iss": "i", "exp": FAR_EXP, "a": {"b": {"c": 1}}, "arr": [{"k": 1}, [{"j": 2}, [{"deep": 3}]], []], "e": {}}),
+        json!({"iss": {"id": "i", "meta": [{"x": 1}]}, "iat": {"at": 1}, "exp": FAR_EXP, "v": [[{"cell": 1}]]}),
+    ];
+    let strategies = [Strategy::AllLevels, Strategy::TopLevel, Strategy::NoSD];
+    let values = [json!("x"), json!(["digest"]), json!({}), json!(null), json!({"k": [1]})];
+    let mut n = 0usize;
+    for t in &trees {
+        for at in object_paths(t) {
+            for name in lookalike_names() {
+                n += 1;
+                let planted = plant(t, &at, name, &values[n % values.len()], n % 2 == 0);
+                let cfg = Cfg::simple(planted.clone(), strategies[n % 3].clone()).variant(n);
+                let mut c = cfg.to_json();
+                c["planted_at"] = json!(format!("{}.{}", crate::oracle::path_str(&at), name));
+                if !sink(c) {
+                    return;
+                }
+                // the same claims plus an exactly reserved member somewhere else
+                if n % 7 == 0 {
+                    let paths = object_paths(&planted);
+                    let at2 = &paths[n % paths.len()];
+                    let both = plant(&planted, at2, if n % 2 == 0 { "_sd" } else { "..." }, &json!("x"), false);
+                    let mut c = Cfg::simple(both, strategies[n % 3].clone()).variant(n).to_json();
+                    c["planted_at"] = json!(format!("{}.{} and a reserved member at {}", crate::oracle::path_str(&at), name, crate::oracle::path_str(at2)));
+                    if !sink(c) {
+                        return;
+                    }
+                }
+            }
+        }
+    }
+}
+
+/// Is some member name, at any depth, exactly `_sd` or `...`? (C13's criterion)
+fn has_reserved_member(v: &J) -> bool {
+    match v {
+        J::Object(o) => o.iter().any(|(k, c)| k == "_sd" || k == "..." || has_reserved_member(c)),
+        J::Array(a) => a.iter().any(has_reserved_member),
+        _ => false,
+    }
+}
+
+/// Refused iff the claims have a member named exactly `_sd` or `...`.
+fn check_exact(case: &J) -> Verdict {
+    let Some(cfg) = Cfg::from_json(case) else { return Verdict::Trivial };
+    let at = case["planted_at"].as_str().unwrap_or("?");
+    let reserved = has_reserved_member(&cfg.claims);
+    match (cfg.issue(), reserved) {
+        (Out::Ok(_), false) | (Out::Err(_), true) => Verdict::Pass,
+        (Out::Err(e), false) => fail(
+            format!("refused claims {} (member planted at {at}) under {}: {e}", short(&jstr(&cfg.claims), 400), jstr(&cfg.strategy.to_json())),
+            "issued: no member is named exactly `_sd` or `...`",
+        ),
+        (Out::Ok(_), true) => fail(format!("issued an SD-JWT for claims {} with a reserved member", short(&jstr(&cfg.claims), 400)), "issuance fails with an error"),
+        (Out::Panic(m), _) => fail(format!("PANIC: {m}"), "Ok or Err"),
     }
 }
